@@ -981,11 +981,22 @@ def check_nonfinite_spellings(ctx, rep):
                         c = mir.op_const(st["rv"]["op"])
                         if c is not None and c.get("str") in ("NaN", "INF", "-INF", "-NaN", "+INF", "Infinity", "-Infinity", "nan", "inf", "-inf"):
                             read.add(c["str"])
+            CAND = ("NaN", "INF", "-INF", "-NaN", "+INF", "Infinity", "-Infinity", "nan", "inf", "-inf")
+
+            def leaves(v, depth=0):
+                if v.kind == "conststr" and v.v in CAND:
+                    read.add(v.v)
+                if depth < 6:
+                    for a2 in (v.args or []):
+                        leaves(a2, depth + 1)
+
             for _bi, t in x.calls():
                 for a in t.get("args", []):
                     c = mir.op_const(a)
-                    if c is not None and c.get("str") in ("NaN", "INF", "-INF", "-NaN", "+INF", "Infinity", "-Infinity", "nan", "inf", "-inf"):
+                    if c is not None and c.get("str") in CAND:
                         read.add(c["str"])
+                    else:
+                        leaves(G.describe(x, a))
         if read == NONFINITE_SPELLINGS:
             rep.ok("T-HAYSON", "nonfinite-spellings:reader", pn.where(), "the reader recognises exactly NaN / INF / -INF")
         else:
